@@ -210,6 +210,8 @@ structure Parsed where
   edgeGt : List (Id × Rat)
   /-- `cells[k].gt_pressure` -/
   cellGt : List (Id × Rat)
+  /-- `used_edges = {abs(e) for face_edges in cells_df["edges"] for e in face_edges}` -/
+  used : List Id := []
 deriving Repr, Inhabited
 
 /-- `edges[abs(e)].v1 if e > 0 else edges[abs(e)].v2` -/
@@ -243,12 +245,24 @@ def buildLattice (ls : List Line) : R Parsed := do
       let vlist ← c.2.1.mapM (tailVertex m1)
       let id ← tokInt c.1
       pure (acc.1.mkCell id vlist, dictSet acc.2 id (roundDec c.2.2 4))) (m1, [])
-  pure { mesh := m2, edgeGt := egt, cellGt := cgt }
+  pure { mesh := m2, edgeGt := egt, cellGt := cgt,
+         used := (cs.map fun c => c.2.1.map fun e => (e.natAbs : Int)).flatten }
 
-/-- the clean-up at the end of `create_lattice`; reference values of deleted edges go with them -/
+/-- `for eid in [k for k in edges if k not in used_edges]: del edges[eid]` (repair 9a1abb9 of finding D23):
+    every mesh edge that no face references is deleted (`SmallEdge.__del__` unregisters it) -/
+def dropFaceless (used : List Id) (m : Mesh) : Mesh :=
+  ((m.edges.map (·.1)).filter fun k => !used.contains k).foldl (fun m e => m.delEdge e) m
+
+/-- the clean-up at the end of `create_lattice`: vertices without cells and the edges ending at them, then the
+    edges of no face; reference values of deleted edges go with them -/
 def removeOrphans (p : Parsed) : Parsed :=
+  let m := dropFaceless p.used p.mesh.orphanRemoval
+  { p with mesh := m, edgeGt := p.edgeGt.filter (fun q => (m.edge? q.1).isSome) }
+
+/-- the upstream rule (before 9a1abb9): only the orphan-vertex loop -/
+def removeOrphansUpstream (p : Parsed) : Parsed :=
   let m := p.mesh.orphanRemoval
-  { mesh := m, edgeGt := p.edgeGt.filter (fun q => (m.edge? q.1).isSome), cellGt := p.cellGt }
+  { p with mesh := m, edgeGt := p.edgeGt.filter (fun q => (m.edge? q.1).isSome) }
 
 /-- `SurfaceEvolver(fname).vertices / .edges / .cells` -/
 def createLattice (ls : List Line) : R Parsed := do
